@@ -685,3 +685,153 @@ TARGETS.append(
                     '(x_id {_t}, {_p}, {_r}, {_a})', 'rrec')],
          stmt_rewrites=[("record = VariantRecord(location=location, ref=ref, alt=alt, _type='RNAEditingSite', _id=_id, attrs=attrs)", 'record = mk_record__(tx_id, position, ref, alt)')],
          stmt_patterns=[('records.append(_x)', {'_x': 'rrec'}, 'records', '({cur} ++ [{_x}])')]))
+
+# ---------------------------------------------------------------------------------------------- C15 fusion parsers
+# (19) parser/STARFusionParser.py / ArribaParser.py / FusionCatcherParser.py  <Tool>Record.convert_to_variant_records
+#      (the ORDER of the look-ups decides which exception escapes)                        vs Fusion.convert <tool>
+#      Trusted: anno.genes[id] is Fusion.lookup_gene (KeyError = unknown id); anno.coordinate_genomic_to_gene(p, id) is
+#      lift (Rmats.g2gene) on the gene just looked up; get_donor_transcripts / get_accepter_transcripts are
+#      txs_with_position at breakpoint - 1; genome[chrom].seq[i] / .seq[i:i+1].reverse_complement() are the base / the
+#      complemented base or '' of the donor's chromosome (Fusion.ref_base); itertools.product is Fusion.product;
+#      the VariantRecord built in the loop is the model's frec and raises ValueError for an empty REF; symbols,
+#      genomic-position strings and the attrs dict do not influence it.
+def fusion_target(out, fname, cls, tool, coq_name, dgid, agid, lpos, rpos, ref_off, call_style):
+    CONV = ("record = seqvar.VariantRecord(location=location, ref=ref_seq, alt='<FUSION>', _type='Fusion', "
+            "_id=fusion_id, attrs=attrs)")
+    pats = [
+        ('anno.genes[self.%s]' % dgid, {}, '(match lookup_gene genes dg with FOk g__ => Some g__ | FErr _ => None end)', 'opt:KeyError:wgene'),
+        ('anno.genes[self.%s]' % agid, {}, '(match lookup_gene genes ag with FOk g__ => Some g__ | FErr _ => None end)', 'opt:KeyError:wgene'),
+        ('self.%s' % lpos, {}, 'L', 'Z'), ('self.%s' % rpos, {}, 'R', 'Z'),
+        ('_m.strand', {'_m': 'wgene'}, '(g_strand (w_gene {_m}))', 'Z'),
+        ('genome[donor_chrom].seq[_i]', {'_i': 'Z'},
+         '(match nthZ (chrom_of chroms (w_chrom DONOR)) {_i} with Some c__ => Some (Some c__) | None => None end)', 'opt:IndexError:optref'),
+        ('genome[donor_chrom].seq[_a:_a + 1].reverse_complement()', {'_a': 'Z'},
+         '(match nthZ (chrom_of chroms (w_chrom DONOR)) {_a} with Some c__ => Some (comp c__) | None => None end)', 'optref'),
+        ('str(_r)', {'_r': 'optref'}, '{_r}', 'optref'),
+        ('itertools.product(_a, _b)', {'_a': 'list Z', '_b': 'list Z'}, '(product {_a} {_b})', 'list pairZ'),
+        ('_t.transcript.transcript_id', {'_t': 'Z'}, '{_t}', 'Z'),
+        ('mk_fusion__(_d, _a, _p, _q, _r)', {'_d': 'Z', '_a': 'Z', '_p': 'Z', '_q': 'Z', '_r': 'optref'},
+         '(match {_r} with Some c__ => Some (mkF {_d} {_a} {_p} {_q} c__) | None => None end)', 'opt:ValueError:frec'),
+    ] + call_style
+    return dict(out=out, file='moPepGen/parser/%s.py' % fname, cls=cls, func='convert_to_variant_records', coq_name=coq_name,
+                imports=['Model.Rmats', 'Model.Fusion'],
+                args=[('genes', 'list wgene'), ('chroms', 'list (list Z)'), ('dg', 'Z'), ('ag', 'Z'), ('L', 'Z'), ('R', 'Z')],
+                types={'wgene': 'wgene', 'optref': '(option Z)', 'pairZ': '(Z * Z)', 'frec': 'frec'},
+                pair_types={'pairZ': ('Z', 'Z')},
+                params={'anno': (None, 'opaque'), 'genome': (None, 'opaque')},
+                var_types={'records': 'list frec'},
+                allow_try=True, caught_types=['KeyError'], res_names=('FOk', 'FErr'),
+                ret_ty='list frec', res_ty='fres (list frec)', ok='(FOk {})', stub='FErr FGeneNotFound',
+                errors={'KeyError': '(FErr FGeneNotFound)', 'IndexError': '(FErr FIndex)', 'ValueError': '(FErr FValue)',
+                        'UnboundLocalError': '(FErr FValue)'},
+                raises=[('err.GeneNotFoundError', 'any', None, '(FErr FGeneNotFound)'), ('ValueError', 'any', None, '(FErr FValue)'),
+                        ('IndexError', 'any', None, '(FErr FIndex)')],
+                ignore_stmts=[r'^donor_gene_symbol = ', r'^accepter_gene_symbol = ', r'^donor_chrom = ', r'^accepter_chrom = ',
+                              r'^location = ', r'^attrs = ', r'^donor_genome_position = ', r'^accepter_genome_position = ',
+                              r'^fusion_id = '],
+                ignore_may_store=['donor_chrom', 'location', 'attrs'],     # donor_chrom only inside the genome[..] patterns
+                stmt_rewrites=[(CONV, 'record = mk_fusion__(donor_tx_id, accepter_tx_id, donor_position, accepter_position, ref_seq)')],
+                patterns=pats,
+                stmt_patterns=[('records.append(_x)', {'_x': 'frec'}, 'records', '({cur} ++ [{_x}])')])
+
+def _sub(pats, donor):
+    return [(p[0], p[1], p[2].replace('DONOR', donor), p[3]) for p in pats]
+
+_star = fusion_target('Py_STARFusionParser', 'STARFusionParser', 'STARFusionRecord', 'Star', 'py_star_convert',
+    'left_gene', 'right_gene', 'left_breakpoint_position', 'right_breakpoint_position', 1, [
+        ('anno.coordinate_genomic_to_gene(_p, self.left_gene)', {'_p': 'Z'}, '(lift (g2gene (w_gene v_donor_model) {_p}))', 'res Z'),
+        ('anno.coordinate_genomic_to_gene(_p, self.right_gene)', {'_p': 'Z'}, '(lift (g2gene (w_gene v_accepter_model) {_p}))', 'res Z'),
+        ('self.get_donor_transcripts(anno)', {}, '(txs_with_position (g_txs (w_gene v_donor_model)) (L - 1) 0)', 'list Z'),
+        ('self.get_accepter_transcripts(anno)', {}, '(txs_with_position (g_txs (w_gene v_accepter_model)) (R - 1) 0)', 'list Z')])
+_star['patterns'] = _sub(_star['patterns'], 'v_donor_model')
+_arriba = fusion_target('Py_ArribaParser', 'ArribaParser', 'ArribaRecord', 'Arriba', 'py_arriba_convert',
+    'gene_id1', 'gene_id2', 'breakpoint1_position', 'breakpoint2_position', 0, [
+        ('anno.coordinate_genomic_to_gene(_p, self.gene_id1)', {'_p': 'Z'}, '(lift (g2gene (w_gene v_donor_gene_model) {_p}))', 'res Z'),
+        ('anno.coordinate_genomic_to_gene(_p, self.gene_id2)', {'_p': 'Z'}, '(lift (g2gene (w_gene v_accepter_gene_model) {_p}))', 'res Z'),
+        ('self.get_donor_transcripts(anno)', {}, '(txs_with_position (g_txs (w_gene v_donor_gene_model)) (L - 1) 0)', 'list Z'),
+        ('self.get_accepter_transcripts(anno)', {}, '(txs_with_position (g_txs (w_gene v_accepter_gene_model)) (R - 1) 0)', 'list Z')])
+_arriba['patterns'] = _sub(_arriba['patterns'], 'v_donor_gene_model')
+TARGETS += [_star, _arriba]
+
+# FusionCatcher: both arms of `if pattern.search(self.five_end_gene_id)` (versioned id: anno.genes[..]; unversioned id:
+# anno.get_gene_model_from_unversioned_id(..), which raises GeneNotFoundError itself) resolve to the model's gene index;
+# `versioned` is a parameter of the generated function and the equality holds for both values.
+_fc = fusion_target('Py_FusionCatcherParser', 'FusionCatcherParser', 'FusionCatcherRecord', 'FC', 'py_fc_convert',
+    'five_end_gene_id', 'three_end_gene_id', 'left_breakpoint_position', 'right_breakpoint_position', 0, [
+        ('pattern.search(self.five_end_gene_id)', {}, 'versioned', 'bool'),
+        ('self.five_end_gene_id', {}, 'dg', 'gidx'), ('self.three_end_gene_id', {}, 'ag', 'gidx'),
+        ('anno.get_gene_model_from_unversioned_id(self.five_end_gene_id)', {},
+         '(match lookup_gene genes dg with FOk g__ => Some g__ | FErr _ => None end)', 'opt:err.GeneNotFoundError:wgene'),
+        ('anno.get_gene_model_from_unversioned_id(self.three_end_gene_id)', {},
+         '(match lookup_gene genes ag with FOk g__ => Some g__ | FErr _ => None end)', 'opt:err.GeneNotFoundError:wgene'),
+        ('donor_gene_model.gene_id', {}, 'dg', 'gidx'), ('accepter_gene_model.gene_id', {}, 'ag', 'gidx'),
+        ('anno.coordinate_genomic_to_gene(index=_p, gene=donor_gene_id)', {'_p': 'Z'}, '(lift (g2gene (w_gene v_donor_gene_model) {_p}))', 'res Z'),
+        ('anno.coordinate_genomic_to_gene(index=_p, gene=accepter_gene_id)', {'_p': 'Z'}, '(lift (g2gene (w_gene v_accepter_gene_model) {_p}))', 'res Z'),
+        ('self.get_donor_transcripts(anno, donor_gene_id)', {}, '(txs_with_position (g_txs (w_gene v_donor_gene_model)) (L - 1) 0)', 'list Z'),
+        ('self.get_accepter_transcripts(anno, accepter_gene_id)', {}, '(txs_with_position (g_txs (w_gene v_accepter_gene_model)) (R - 1) 0)', 'list Z')])
+_fc['patterns'] = [p for p in _sub(_fc['patterns'], 'v_donor_gene_model') if p[0] not in ('self.five_end_gene_id', 'self.three_end_gene_id')] \
+    + [('self.five_end_gene_id', {}, 'dg', 'gidx'), ('self.three_end_gene_id', {}, 'ag', 'gidx')]
+_fc['args'] = [('versioned', 'bool')] + _fc['args']
+_fc['types'] = dict(_fc['types'], gidx='Z')
+_fc['errors'] = dict(_fc['errors'], **{'err.GeneNotFoundError': '(FErr FGeneNotFound)'})
+_fc['ignore_stmts'] = _fc['ignore_stmts'] + [r'^pattern = ']
+_fc['ignore_may_store'] = _fc['ignore_may_store'] + ['pattern']        # only inside the pattern.search(..) pattern
+_fc['stmt_rewrites'] = [(_fc['stmt_rewrites'][0][0],
+                         'record = mk_fusion__(donor_tx_id, accepter_tx_id, left_breakpoint_genetic, right_breakpoint_genetic, ref_seq)')]
+TARGETS.append(_fc)
+
+# (20) cli/parse_star_fusion.py / parse_fusion_catcher.py / parse_arriba.py: the record loop with the evidence
+#      filter, the two except handlers (GeneNotFoundError counted; anything else counted under --skip-failed, else
+#      re-raised) and the tally                                                            vs Fusion.cli <tool>
+#      Slice `variants = []` .. `for record in ...parse(..)`; observable (variants paired with their row, tally).
+#      Trusted: a parsed record is the model's row; record.convert_to_variant_records is Fusion.convert <tool> (tied to
+#      its own code by (19)); tally.skipped.total is the derived t_skipped (its increments are ignored); the tally
+#      object starts at tally0.
+def _bumpf(field):
+    fs = ['t_total', 't_succeed', 't_insufficient', 't_invalid_gene', 't_invalid_pos', 't_antisense']
+    return '(mkT ' + ' '.join('(%s {cur} + 1)' % f if f == field else '(%s {cur})' % f for f in fs) + ')'
+def fusion_cli(fname, func, tool, coq_name, parse_call, filters):
+    return dict(out='Py_' + fname, file='moPepGen/cli/%s.py' % fname, cls=None, func=func, coq_name=coq_name,
+        imports=['Model.Rmats', 'Model.Fusion'],
+        args=[('genes', 'list wgene'), ('chroms', 'list (list Z)'), ('o', 'opts'), ('rows', 'list row')],
+        types={'row': 'row', 'frec': 'frec', 'rf': '(row * frec)', 'tally': 'tally', 'cres': '(list (row * frec) * tally)', 'ferr': 'ferr'},
+        params={'args': (None, 'opaque')},
+        pre_env={'tally__': ('tally0', 'tally')},
+        slice=('variants: List[seqvar.VariantRecord] = []', 'for record in %s:' % parse_call),
+        slice_pre=[], slice_post=['return result__(variants, tally__)'],
+        var_types={'variants': 'list rf'},
+        allow_try=True, caught_types=['err.GeneNotFoundError'], res_names=('FOk', 'FErr'), res_err_type='ferr',
+        handler_tests={'err.GeneNotFoundError': '(match {e} with FGeneNotFound => true | _ => false end)'},
+        reraise='(FErr {e})',
+        ret_ty='cres', res_ty='fres (list (row * frec) * tally)', ok='(FOk {})', stub='FErr FValue',
+        errors={}, raises=[],
+        ignore_stmts=[r'^tally\.skipped\.total \+= 1$'],
+        stmt_rewrites=[('variants: List[seqvar.VariantRecord] = []', 'variants = []')],
+        patterns=[(parse_call, {}, 'rows', 'list row'),
+                  ('_r.convert_to_variant_records(anno, genome)', {'_r': 'row'},
+                   '(convert %s genes chroms (r_dg {_r}) (r_ag {_r}) (r_L {_r}) (r_R {_r}))' % tool, 'res list frec'),
+                  ('args.skip_failed', {}, '(o_skip_failed o)', 'bool'),
+                  ('result__(_v, _t)', {'_v': 'list rf', '_t': 'tally'}, '({_v}, {_t})', 'cres')] + filters,
+        stmt_patterns=[('variants.extend(_v)', {'_v': 'list frec'}, 'variants', '({cur} ++ map (fun x__ => (v_record, x__)) {_v})'),
+                       ('tally.total += 1', {}, 'tally__', _bumpf('t_total')),
+                       ('tally.succeed += 1', {}, 'tally__', _bumpf('t_succeed')),
+                       ('tally.skipped.insufficient_evidence += 1', {}, 'tally__', _bumpf('t_insufficient')),
+                       ('tally.skipped.invalid_gene_id += 1', {}, 'tally__', _bumpf('t_invalid_gene')),
+                       ('tally.skipped.invalid_position += 1', {}, 'tally__', _bumpf('t_invalid_pos')),
+                       ('tally.skipped.antisense_strand += 1', {}, 'tally__', _bumpf('t_antisense'))])
+TARGETS.append(fusion_cli('parse_star_fusion', 'parse_star_fusion', 'Star', 'py_star_cli', 'parser.STARFusionParser.parse(fusion)',
+    [('_r.est_j', {'_r': 'row'}, '(r_e1 {_r})', 'Z'), ('args.min_est_j', {}, '(o_1 o)', 'Z')]))
+TARGETS.append(fusion_cli('parse_fusion_catcher', 'parse_fusion_catcher', 'FC', 'py_fc_cli', 'parser.FusionCatcherParser.parse(fusion)',
+    [('_r.counts_of_common_mapping_reads', {'_r': 'row'}, '(r_e1 {_r})', 'Z'), ('args.max_common_mapping', {}, '(o_1 o)', 'Z'),
+     ('_r.spanning_unique_reads', {'_r': 'row'}, '(r_e2 {_r})', 'Z'), ('args.min_spanning_unique', {}, '(o_2 o)', 'Z')]))
+_arr_cli = fusion_cli('parse_arriba', 'parse_arriba', 'Arriba', 'py_arriba_cli', 'parser.ArribaParser.parse(handle)',
+    [('_r.gene_id1 in anno.genes', {'_r': 'row'}, '(known genes (r_dg {_r}))', 'bool'),
+     ('_r.gene_id2 in anno.genes', {'_r': 'row'}, '(known genes (r_ag {_r}))', 'bool'),
+     # ArribaRecord.is_valid / transcript_on_antisense_strand: trusted to be the model's evidence and strand tests
+     ('_r.is_valid(min_split_read1, min_split_read2, min_confidence)', {'_r': 'row'},
+      '((r_e1 {_r} >=? o_1 o) && (r_e2 {_r} >=? o_2 o) && (r_e3 {_r} >=? o_3 o))', 'bool'),
+     ('_r.transcript_on_antisense_strand(anno)', {'_r': 'row'},
+      '(negb (r_s1 {_r} =? strand_of genes (r_dg {_r})) || negb (r_s2 {_r} =? strand_of genes (r_ag {_r})))', 'bool')])
+_arr_cli['slice'] = ('variants: List[seqvar.VariantRecord] = []', "with open(fusion, 'rt') as handle:")
+_arr_cli['allow_with'] = ["open(fusion, 'rt')"]
+TARGETS.append(_arr_cli)
